@@ -82,6 +82,8 @@ class ClientRegistrationEndpoint:
         key = self.resolve_public_key(request)
         if not key:
             raise UnapprovedSoftwareStatementError()
+        if not isinstance(software_statement, str):
+            raise InvalidSoftwareStatementError()
 
         try:
             jwt = JsonWebToken(self.software_statement_alg_values_supported)
